@@ -210,7 +210,10 @@ def report(ctx, runner, bads, tag):
     seen = set()
     parsed = [parse_bad(ln) for ln in bads]
     parsed.sort(key=lambda b: (0 if b.get("oracle") else 1, b.get("steps", 0)))   # concrete failures first, shortest first
+    have_concrete = any(b.get("oracle") for b in parsed)
     for b in parsed:
+        if have_concrete and not b.get("oracle"):
+            continue        # a concrete failing schedule is reported; pure model/implementation differences add nothing
         if "raw" in b:
             ctx.violation(dict(kind="unparsed", line=b["raw"]), what="C12: unparsable result line", no_input=True)
             continue
